@@ -27,7 +27,11 @@ def zeroVal (env : Env) : Nat → Ty → Val
     | .eitherRef t => Val.ctor "L" (zeroVal env fuel t)
     | .refT t => zeroVal env fuel t
     | .prim p => Prim.zero p
-    | .vmStack _ | .dictE _ => .nil
+    | .vmStack _ | .dictE _ _ | .dict _ _ | .chain _ | .highload => .nil
+    | .dictAug _ _ _ => Val.list [.nil, .nil]
+    | .binTree _ => Val.list [.nil]
+    | .dictAugE _ _ x => Val.list [.nil, .nil, zeroVal env fuel x]
+    | .custom _ body _ => zeroVal env fuel body
     | .encErr _ | .opaque _ => .nil
 where zeroFields (env : Env) : Nat → Fields → Val
   | 0, _ => .nil
@@ -40,10 +44,20 @@ def absentVal (env : Env) (fuel : Nat) (T : Ty) : Val :=
   | .ptr _ _ => .none
   | _ => zeroVal env fuel T
 
-/-- Magic.ValidateTag: a failed read yields 0 and leaves the cursor where it was. The number the decoder stores into
-the field (the tag's value) is not part of the value: the field is dumped as `#` on both sides (tlb.Transaction's
-hand decoder, for one, leaves it 0). -/
+/-- Magic.ValidateTag (after the `fix:` "Magic.ValidateTag returns the error of the read"): the tag is read and
+compared. The number the decoder stores into the field (the tag's value) is not part of the value: the field is dumped
+as `#` on both sides (tlb.Transaction's hand decoder, for one, leaves it 0). -/
 def decodeMagic (tg : Option Tag) (s : Slice) : Outcome (Val × Slice) :=
+  match tg with
+  | none => .err "unsupported tag"
+  | some t => do
+    let (y, s') ← s.readUint t.len
+    if t.val ≠ y then .err "magic prefix not found" else .ok (.magic, s')
+
+/-- Magic.ValidateTag as shipped: the error of `ReadUint` was dropped, so a failed read counted as the value 0 and
+left the cursor where it was — a tag whose value is 0 (`shardident$00`, `msg_metadata#0`, `#00`, …) accepted a cell
+that ends before the tag (witness `magic_orig_defect`). -/
+def decodeMagicOrig (tg : Option Tag) (s : Slice) : Outcome (Val × Slice) :=
   match tg with
   | none => .err "unsupported tag"
   | some t =>
@@ -72,6 +86,319 @@ def selectCtor : Ctors → List Bool → Outcome (String × Ty × Nat)
       else if tag.len > 64 then .err "too much bits for uint64"
       else if tag.val = bitsToNat (bits.take tag.len) then .ok (name, t, tag.len)
       else selectCtor rest bits
+
+/-- the value side of C05's codec parameter on the decoder side: `decoder.Unmarshal(leaf, &v)` on what is left of the
+leaf cell after the label -/
+def valueCodecDec (dec : Slice → Outcome (Val × Slice)) : Hashmap.Codec Val where
+  enc _ := .err "decoder only"
+  dec bits refs := (dec { bits := bits, refs := refs }).bind fun r => .ok r.1
+
+/-- where the cursor of the current cell stands after Hashmap.UnmarshalTLB: behind the root label and the two
+references of a fork, or behind the value of a root leaf (`dec`: the value decoder). -/
+def dictRest (n : Nat) (dec : Slice → Outcome (Val × Slice)) (s : Slice) : Slice :=
+  match Hashmap.loadLabel n n [] s.bits with
+  | .ok (_, pfx, rest) =>
+    if pfx.length < n then { s with bits := rest, refs := s.refs.drop 2 }
+    else match dec { s with bits := rest } with
+      | .ok (_, s') => s'
+      | _ => { s with bits := [], refs := [] }
+  | _ => { s with bits := [], refs := [] }
+
+/-- HashmapE.UnmarshalTLB: Maybe ^(Hashmap n X); a pruned root decodes as the empty dictionary. `kdec`: the key decoder
+on the key bits, `C`: the value codec for C05's tree decoder. -/
+def decodeDictE (kw : Option Nat) (kdec : Hashmap.Key → Outcome Val) (C : Hashmap.Codec Val) (s : Slice) :
+    Outcome (Val × Slice) := do
+  let (ne, s) ← s.readBit
+  if !ne then pure (.nil, s)
+  else do
+    let (r, s) ← s.nextRef
+    let rs := Slice.ofCell r
+    if rs.isPruned then pure (.nil, s)
+    else match kw with
+      | none => .err "bad key type"
+      | some n => do
+        let kvs ← Hashmap.unmarshal C n r
+        let ks ← mapMOutcome (fun (kv : Hashmap.Key × Val) => kdec kv.1) kvs
+        pure (dictVal ks (kvs.map (·.2)), s)
+
+/-- Hashmap.UnmarshalTLB on the current cell (a pruned cell decodes as the empty map). The type counts as greedy
+(`wfb` admits it in the last position only): the round-trip theorem says nothing about what follows it. -/
+def decodeDict (kw : Option Nat) (kdec : Hashmap.Key → Outcome Val) (C : Hashmap.Codec Val)
+    (vdec : Slice → Outcome (Val × Slice)) (s : Slice) : Outcome (Val × Slice) :=
+  if s.isPruned then pure (.nil, s)
+  else match kw with
+    | none => .err "bad key type"
+    | some n => do
+      let kvs ← Hashmap.unmarshal C n s.toCell
+      let ks ← mapMOutcome (fun (kv : Hashmap.Key × Val) => kdec kv.1) kvs
+      pure (dictVal ks (kvs.map (·.2)), dictRest n vdec s)
+
+/-! ### HashmapAug / HashmapAugE (decode side; the trees are C05's `mapInnerAug` / `unmarshalAugE`) -/
+
+def emptied (s : Slice) : Slice := { s with bits := [], refs := [] }
+
+/-- the extra decoder as the dictionary model wants it: the extra and what is left of the cell -/
+def skipExtra (xdec : Slice → Outcome (Val × Slice)) : Hashmap.XDec Val := fun bits refs =>
+  (xdec { bits := bits, refs := refs }).bind fun r => .ok (r.1, r.2.bits, r.2.refs)
+
+/-- HashmapAugE.UnmarshalTLB = struct { M Maybe ^(HashmapAug n X Y); Extra Y }; dump: (keys|values|extra) (the tree of
+inner extras has no accessor) -/
+def decodeDictAugE (n : Nat) (kdec : Hashmap.Key → Outcome Val) (C : Hashmap.Codec Val)
+    (xdec : Slice → Outcome (Val × Slice)) (s : Slice) : Outcome (Val × Slice) := do
+  let (kvs, _, _) ← Hashmap.unmarshalAugE (skipExtra xdec) Val.nil C n s.toCell
+  let ks ← mapMOutcome (fun (kv : Hashmap.Key × Val) => kdec kv.1) kvs
+  let (ne, s1) ← s.readBit
+  let s2 ← if ne then (s1.nextRef).bind fun r => .ok r.2 else .ok s1
+  let (xv, s3) ← xdec s2
+  pure (Val.list [Val.list ks, Val.list (kvs.map (·.2)), xv], s3)
+
+/-- where the cursor stands after HashmapAug.UnmarshalTLB on the current cell -/
+def dictAugRest (n : Nat) (xdec vdec : Slice → Outcome (Val × Slice)) (s : Slice) : Slice :=
+  match Hashmap.loadLabel n n [] s.bits with
+  | .ok (_, pfx, rest) =>
+    if pfx.length < n then
+      match xdec { s with bits := rest, refs := s.refs.drop 2 } with
+      | .ok (_, s') => s'
+      | _ => emptied s
+    else match xdec { s with bits := rest } with
+      | .ok (_, s1) => (match vdec s1 with
+        | .ok (_, s2) => s2
+        | _ => emptied s)
+      | _ => emptied s
+  | _ => emptied s
+
+/-- HashmapAug.UnmarshalTLB on the current cell; dump: (keys|values) (the extras are not observable) -/
+def decodeDictAug (n : Nat) (kdec : Hashmap.Key → Outcome Val) (C : Hashmap.Codec Val)
+    (xdec vdec : Slice → Outcome (Val × Slice)) (s : Slice) : Outcome (Val × Slice) :=
+  if s.isPruned then .ok (Val.list [.nil, .nil], s)
+  else do
+    let (kvs, _) ← Hashmap.mapInnerAug (skipExtra xdec) Val.nil C n (n + 1) n s.toCell []
+    let ks ← mapMOutcome (fun (kv : Hashmap.Key × Val) => kdec kv.1) kvs
+    pure (Val.list [Val.list ks, Val.list (kvs.map (·.2))], dictAugRest n xdec vdec s)
+
+/-! ### BinTree -/
+
+/-- decodeRecursiveBinTree: the leaf cells (cursor behind the `bt_leaf$0` bit), left to right -/
+def binLeaves : Nat → Slice → Outcome (List Slice)
+  | 0, _ => .err "fuel"
+  | fuel + 1, s => do
+    let (br, s) ← s.readBit
+    if !br then pure [s]
+    else do
+      let (l, s) ← s.nextRef
+      let ls ← binLeaves fuel (Slice.ofCell l)
+      let (r, _) ← s.nextRef
+      let rs ← binLeaves fuel (Slice.ofCell r)
+      pure (ls ++ rs)
+
+/-- BinTree.UnmarshalTLB; dump: ((v1|v2|…)) (a struct with the one field Values). The root leaf IS the current cell. -/
+def decodeBinTree (fuel : Nat) (tdec : Slice → Outcome (Val × Slice)) (s : Slice) : Outcome (Val × Slice) := do
+  let leaves ← binLeaves fuel s
+  let vs ← mapMOutcome (fun l => (tdec l).bind fun r => .ok r.1) leaves
+  let rest : Slice := match s.readBit with
+    | .ok (false, s1) => (match tdec s1 with
+      | .ok (_, s2) => s2
+      | _ => emptied s)
+    | .ok (true, s1) => { s1 with refs := s1.refs.drop 2 }
+    | _ => emptied s
+  pure (Val.list [Val.list vs], rest)
+
+/-! ### hand-written decoders with flag-dependent layout (tlb/block.go, tlb/proof.go) -/
+
+def Val.nth : Val → Nat → Option Val
+  | .cons h _, 0 => Option.some h
+  | .cons _ t, n + 1 => Val.nth t n
+  | _, _ => Option.none
+
+/-- the component types of a hand decoder are listed as plainly tagged fields -/
+def Fields.nthTy : Fields → Nat → Option Ty
+  | .cons _ .plain t _, 0 => some t
+  | .cons _ _ _ rest, n + 1 => Fields.nthTy rest n
+  | _, _ => none
+
+def Ty.auxAt (aux : Ty) (i : Nat) : Outcome Ty :=
+  match aux with
+  | .struct fs => (match fs.nthTy i with
+    | some t => .ok t
+    | none => .err "bad descriptor")
+  | _ => .err "bad descriptor"
+
+def valBool (v : Option Val) : Outcome Bool :=
+  match v with
+  | some (.bool b) => .ok b
+  | _ => .err "bad descriptor"
+
+def valNat (v : Option Val) : Outcome Nat :=
+  match v with
+  | some (.int i) => .ok i.toNat
+  | _ => .err "bad descriptor"
+
+abbrev DecFn := Ty → Slice → Outcome (Val × Slice)
+
+/-- BlkPrevInfo.UnmarshalTLB(c, isBlks): prev_blk_info$_ prev:ExtBlkRef | prev_blks_info$_ prev1:^ExtBlkRef
+prev2:^ExtBlkRef, chosen by the caller's flag -/
+def decBlkPrev (dec : DecFn) (ext : Ty) (isBlks : Bool) (c : Slice) : Outcome Val :=
+  if isBlks then do
+    let (r1, c) ← c.nextRef
+    let (p1, _) ← dec ext (Slice.ofCell r1)
+    let (r2, _) ← c.nextRef
+    let (p2, _) ← dec ext (Slice.ofCell r2)
+    pure (Val.ctor "PrevBlksInfo" (Val.some (Val.list [p1, p2])))
+  else do
+    let (p, _) ← dec ext c
+    pure (Val.ctor "PrevBlkInfo" (Val.some (Val.list [p])))
+
+/-- a component present only under a flag, read from the current cell: a pointer, nil when absent -/
+def optHere (c : Bool) (dec : DecFn) (T : Ty) (s : Slice) : Outcome (Val × Slice) :=
+  if c then (dec T s).bind fun r => .ok (Val.some r.1, r.2) else .ok (Val.none, s)
+
+/-- a component present only under a flag, in the next referenced cell -/
+def optRef (c : Bool) (f : Slice → Outcome Val) (s : Slice) : Outcome (Val × Slice) :=
+  if c then (s.nextRef).bind fun r => (f (Slice.ofCell r.1)).bind fun v => .ok (Val.some v, r.2)
+  else .ok (Val.none, s)
+
+/-- a component present only under a flag, zero when absent -/
+def orZero (c : Bool) (dec : DecFn) (zero : Ty → Val) (T : Ty) (s : Slice) : Outcome (Val × Slice) :=
+  if c then dec T s else .ok (zero T, s)
+
+def nthOr (v : Val) (i : Nat) : Outcome Val :=
+  match v.nth i with
+  | some p => .ok p
+  | none => .err "bad descriptor"
+
+/-- BlockInfo.UnmarshalTLB. aux = (header struct with the magic and BlockInfoPart | GlobalVersion | BlkMasterInfo |
+ExtBlkRef). gen_software:flags . 0?GlobalVersion  master_ref:not_master?^BlkMasterInfo
+prev_ref:^(BlkPrevInfo after_merge)  prev_vert_ref:vert_seqno_incr?^(BlkPrevInfo 0) -/
+def decBlockInfo (dec : DecFn) (aux : Ty) (s : Slice) : Outcome (Val × Slice) := do
+  let hdr ← aux.auxAt 0
+  let gv ← aux.auxAt 1
+  let bmi ← aux.auxAt 2
+  let ext ← aux.auxAt 3
+  let (d, s) ← dec hdr s
+  let part ← nthOr d 1
+  let notMaster ← valBool (part.nth 1)
+  let afterMerge ← valBool (part.nth 2)
+  let vert ← valBool (part.nth 8)
+  let flags ← valNat (part.nth 9)
+  let (gs, s) ← optHere (flags % 2 == 1) dec gv s
+  let (mr, s) ← optRef notMaster (fun c => (dec bmi c).bind fun r => .ok r.1) s
+  let (r, s) ← s.nextRef
+  let prev ← decBlkPrev dec ext afterMerge (Slice.ofCell r)
+  let (pv, s) ← optRef vert (fun c => decBlkPrev dec ext false c) s
+  pure (Val.list [part, gs, mr, prev, pv], s)
+
+def valueFlowV1 : Nat := 0xb8e48dfb
+def valueFlowV2 : Nat := 0x3ebf98b7
+
+def decFour (dec : DecFn) (cc : Ty) (g : Slice) : Outcome (Val × Val × Val × Val) := do
+  let (a, g) ← dec cc g
+  let (b, g) ← dec cc g
+  let (c, g) ← dec cc g
+  let (d, _) ← dec cc g
+  pure (a, b, c, d)
+
+/-- ValueFlow.UnmarshalTLB: value_flow#b8e48dfb (v1) | value_flow_v2#3ebf98b7 (with `burned`); aux = (CurrencyCollection) -/
+def decValueFlow (dec : DecFn) (aux : Ty) (s : Slice) : Outcome (Val × Slice) := do
+  let cc ← aux.auxAt 0
+  let (tag, s) ← s.readUint 32
+  if tag ≠ valueFlowV1 ∧ tag ≠ valueFlowV2 then .err "value flow invalid tag"
+  else do
+    let (g1, s) ← s.nextRef
+    let (fees, s) ← dec cc s
+    let (a, b, c, d) ← decFour dec cc (Slice.ofCell g1)
+    let (burned, s) ← optHere (tag == valueFlowV2) dec cc s
+    let (g2, s) ← s.nextRef
+    let (e, f, g, h) ← decFour dec cc (Slice.ofCell g2)
+    pure (Val.list [.magic, a, b, c, d, fees, burned, e, f, g, h], s)
+
+/-- one side of split_state: a pruned side stays zero -/
+def decSide (dec : DecFn) (zero : Ty → Val) (unsplit : Ty) (c : Cell) : Outcome Val :=
+  if (Slice.ofCell c).isPruned then .ok (zero unsplit) else (dec unsplit (Slice.ofCell c)).bind fun r => .ok r.1
+
+/-- ShardState.UnmarshalTLB: split_state#5f327da5 left:^ShardStateUnsplit right:^ShardStateUnsplit (a pruned side stays
+zero) | shard_state#9023afe2 …; aux = (ShardStateUnsplit | ShardStateUnsplitData) -/
+def decShardState (dec : DecFn) (zero : Ty → Val) (aux : Ty) (s : Slice) : Outcome (Val × Slice) := do
+  let unsplit ← aux.auxAt 0
+  let data ← aux.auxAt 1
+  let (tag, s) ← s.readUint 32
+  if tag = 0x5f327da5 then do
+    let (c1, s) ← s.nextRef
+    let l ← decSide dec zero unsplit c1
+    let (c2, s) ← s.nextRef
+    let r ← decSide dec zero unsplit c2
+    pure (Val.ctor "SplitState" (Val.list [l, r]), s)
+  else if tag = 0x9023afe2 then do
+    let (d, s) ← dec data s
+    pure (Val.ctor "UnsplitState" (Val.list [Val.list [.magic, d]]), s)
+  else .err "invalid tag"
+
+/-- McStateExtraOther.UnmarshalTLB: flags:(## 16) … block_create_stats:(flags . 0)?BlockCreateStats — tongo tests
+`flags == 1`; aux = the six fields -/
+def decMcStateExtraOther (dec : DecFn) (zero : Ty → Val) (aux : Ty) (s : Slice) : Outcome (Val × Slice) := do
+  let vi ← aux.auxAt 1
+  let pb ← aux.auxAt 2
+  let akb ← aux.auxAt 3
+  let lkb ← aux.auxAt 4
+  let bcs ← aux.auxAt 5
+  let (flags, s) ← s.readUint 16
+  let (a, s) ← dec vi s
+  let (b, s) ← dec pb s
+  let (c, s) ← dec akb s
+  let (d, s) ← dec lkb s
+  let (e, s) ← orZero (flags == 1) dec zero bcs s
+  pure (Val.list [.int flags, a, b, c, d, e], s)
+
+/-- the optional reference of McBlockExtra: decoded when present, zero otherwise -/
+def optRefZero (dec : DecFn) (zero : Ty → Val) (T : Ty) (s : Slice) : Outcome (Val × Slice) :=
+  match s.nextRef with
+  | .ok (c1, s') => (dec T (Slice.ofCell c1)).bind fun r => .ok (r.1, s')
+  | .err _ => .ok (zero T, s)
+  | .panic p => .panic p
+
+/-- McBlockExtra.UnmarshalTLB: masterchain_block_extra#cca5 key_block:(## 1) shard_hashes:ShardHashes shard_fees:ShardFees
+^[ … ] config:key_block?ConfigParams; the reference is optional for the decoder; aux = the six fields -/
+def decMcBlockExtra (dec : DecFn) (zero : Ty → Val) (aux : Ty) (s : Slice) : Outcome (Val × Slice) := do
+  let kb ← aux.auxAt 1
+  let sh ← aux.auxAt 2
+  let sf ← aux.auxAt 3
+  let oth ← aux.auxAt 4
+  let cfg ← aux.auxAt 5
+  let (tag, s) ← s.readUint 16
+  if tag ≠ 0xcca5 then .err "invalid tag"
+  else do
+    let (k, s) ← dec kb s
+    let (a, s) ← dec sh s
+    let (b, s) ← dec sf s
+    let (o, s) ← optRefZero dec zero oth s
+    let isKey ← valBool (some k)
+    let (c, s) ← orZero isKey dec zero cfg s
+    pure (Val.list [.magic, k, a, b, o, c], s)
+
+/-- CryptoSignature.UnmarshalTLB: ed25519_signature#5 R:bits256 s:bits256 | chained_signature#f signed_cert:^SignedCertificate
+temp_key_signature:CryptoSignatureSimple; aux = (CryptoSignatureSimpleData | SignedCertificate | CryptoSignatureSimple) -/
+def decCryptoSignature (dec : DecFn) (aux : Ty) (s : Slice) : Outcome (Val × Slice) := do
+  let data ← aux.auxAt 0
+  let cert ← aux.auxAt 1
+  let simple ← aux.auxAt 2
+  let (tag, s) ← s.readUint 4
+  if tag = 0x5 then do
+    let (d, s) ← dec data s
+    pure (Val.ctor "CryptoSignatureSimple" d, s)
+  else if tag = 0xf then do
+    let (c1, s) ← s.nextRef
+    let (sc, _) ← dec cert (Slice.ofCell c1)
+    let (tk, s) ← dec simple s
+    pure (Val.ctor "CryptoSignature" (Val.list [Val.some sc, tk]), s)
+  else .err "invalid tag"
+
+def decodeCustom (dec : DecFn) (zero : Ty → Val) (id : String) (aux : Ty) (s : Slice) : Outcome (Val × Slice) :=
+  if id = "tlb.BlockInfo" then decBlockInfo dec aux s
+  else if id = "tlb.ValueFlow" then decValueFlow dec aux s
+  else if id = "tlb.ShardState" then decShardState dec zero aux s
+  else if id = "tlb.McStateExtraOther" then decMcStateExtraOther dec zero aux s
+  else if id = "tlb.McBlockExtra" then decMcBlockExtra dec zero aux s
+  else if id = "tlb.CryptoSignature" then decCryptoSignature dec aux s
+  else .err "unmodelled"
 
 mutual
 
@@ -195,9 +522,43 @@ def decode (env : Env) : Nat → Ty → Slice → Outcome (Val × Slice)
       else do
         let (vs, s) ← decodeStack env fuel e depth s
         pure (Val.list vs, s)
-    | .dictE _ => do
-      let (ne, s) ← s.readBit
-      if ne then .err "unmodelled" else pure (.nil, s)
+    | .dictE k t =>
+      decodeDictE (keyWidth k) (fun key => (decode env fuel k { bits := key }).bind fun r => .ok r.1)
+        (valueCodecDec (fun vs => decode env fuel t vs)) s
+    | .dict k t =>
+      decodeDict (keyWidth k) (fun key => (decode env fuel k { bits := key }).bind fun r => .ok r.1)
+        (valueCodecDec (fun vs => decode env fuel t vs)) (fun vs => decode env fuel t vs) s
+    | .chain e => do
+      -- W5ExtendedActions.UnmarshalTLB: an element, then the next reference of the cell if there is one
+      let (x, s1) ← decode env fuel e s
+      match s1.nextRef with
+      | .ok (next, s2) => do
+        let (rest, _) ← decode env fuel (.chain e) (Slice.ofCell next)
+        pure (.cons x rest, s2)
+      | .err _ => pure (.cons x .nil, s1)
+      | .panic p => .panic p
+    | .highload => do
+      let (d, s') ← decode env fuel (.dictE (.uint 16) (.prim .any)) s
+      match dictParts d with
+      | some (_, vs) => (match hlFromValues vs with
+        | some r => pure (r, s')
+        | none => .err "failed to read msg")
+      | none => .err "bad dictionary"
+    | .dictAugE k t x =>
+      (match keyWidth k with
+      | none => .err "bad key type"
+      | some n => decodeDictAugE n
+          (fun key => (decode env fuel k { bits := key }).bind fun r => .ok r.1)
+          (valueCodecDec (fun vs => decode env fuel t vs)) (fun xs => decode env fuel x xs) s)
+    | .dictAug k t x =>
+      (match keyWidth k with
+      | none => .err "bad key type"
+      | some n => decodeDictAug n
+          (fun key => (decode env fuel k { bits := key }).bind fun r => .ok r.1)
+          (valueCodecDec (fun vs => decode env fuel t vs)) (fun xs => decode env fuel x xs)
+          (fun vs => decode env fuel t vs) s)
+    | .binTree t => decodeBinTree fuel (fun ts => decode env fuel t ts) s
+    | .custom id _ aux => decodeCustom (fun T s => decode env fuel T s) (fun T => zeroVal env fuel T) id aux s
     | .encErr _ => .err "unmodelled"
     | .opaque _ => .err "unmodelled"
 
